@@ -300,6 +300,24 @@ impl Check for Spending {
                     }
                 }
             }
+            // stored policy data equals what the model implies: limit, period, a history that is a suffix of the accepted
+            // transfers containing every entry still inside the window, and a cached total equal to the history's sum
+            {
+                let d = pc.try_get_spending_limit_data(&rule.id, &acct);
+                match (&d, m.installed) {
+                    (Err(_), None) => {}
+                    (Ok(Ok(d)), Some((limit, period))) => {
+                        let hist: std::vec::Vec<(u32, i128)> = d.spending_history.iter().map(|x| (x.ledger_sequence, x.amount)).collect();
+                        let sum = hist.iter().fold(num_bigint::BigInt::from(0), |a, b| a + b.1);
+                        let is_suffix = hist.len() <= m.hist.len() && m.hist[m.hist.len() - hist.len()..] == hist[..];
+                        let live = m.live();
+                        if d.spending_limit != limit || d.period_ledgers != period || !is_suffix || hist.len() < live.len() || sum != num_bigint::BigInt::from(d.cached_total_spent) {
+                            return Err(violation("window.stored_state_eq_model", "get_spending_limit_data", i, format!("stored limit {} period {} history {hist:?} cached {}; model {:?}, accepted {:?}, still in window {live:?} after {s:?}", d.spending_limit, d.period_ledgers, d.cached_total_spent, m.installed, m.hist)));
+                        }
+                    }
+                    _ => return Err(violation("window.stored_state_eq_model", "get_spending_limit_data", i, format!("getter {:?}, model installed {:?} after {s:?}", d.as_ref().map(|x| x.is_ok()), m.installed))),
+                }
+            }
             let room_class = m.installed.map(|(l, _)| { let spent: i128 = m.live().iter().map(|x| x.1).fold(0i128, |a, b| a.saturating_add(b)); (l.saturating_sub(spent)).signum() as i8 });
             st.state(&(m.installed.is_some(), m.live().len().min(6), room_class, m.hist.len().min(4) > m.live().len().min(4), std::mem::discriminant(s)));
         }
